@@ -386,7 +386,7 @@ func (f *Frame) checks(kind string) bool {
 		return true
 	}
 	switch kind {
-	case "index", "assert", "mapnil":
+	case "index", "assert", "assert-ext", "mapnil":
 		return !fc.Checks["nosafety"]
 	}
 	return false
